@@ -88,6 +88,14 @@ def plan(tier, seed):
                                         "Hstack-rank", "Vstack-i", "Vstack-off",
                                         "Vstack-rank", "Diag-ioff", "Diag-ooff"]),
               mseed=int(rng.integers(1 << 30)))
+    # the same rejection clause in a `python -O` interpreter (validation written as `assert`
+    # vanishes there): a share of the misfit sets again, in workers started with -O
+    for i in range(nm // 3):
+        P.add("misfit-O", kind=pick(rng, ["Compose", "Compose-rank", "Add-rank", "Add-i", "Add-o",
+                                          "Hstack-o", "Hstack-off",
+                                          "Hstack-rank", "Vstack-i", "Vstack-off",
+                                          "Vstack-rank", "Diag-ioff", "Diag-ooff"]),
+              mseed=int(rng.integers(1 << 30)), pyopt=True)
     if tier == "thorough" and repo_tests.available():
         # the repository's own test suite as one more workload under the always-on monitors
         P.add("repo-tests", timeout=1800.0, fresh=True)
@@ -356,10 +364,16 @@ def run_one(case):
     rng = rng_for(case)
     if case["gen"] == "reuse":
         return run_reuse(case)
-    if case["gen"] == "misfit":
+    if case["gen"] in ("misfit", "misfit-O"):
         mrng = np.random.default_rng(case["mseed"])
         thunk, what = _misfit(case["kind"], mrng)
         sig = "misfit|" + case["kind"]
+        if case["gen"] == "misfit-O":
+            import sys
+            if not sys.flags.optimize:
+                return inconclusive("this worker does not run under python -O", sig="misfit-O")
+            sig = "misfit-O|" + case["kind"]
+            what = "[python -O] " + what
         try:
             A = thunk()
         except Exception as e:
@@ -374,6 +388,8 @@ def run_one(case):
     nontrivial = desc["op"] in ALGEBRA and any(l != "Identity" for l in leafs)
     wit = {"desc": desc, "dtype": dt.name}
     try:
+        if sum(case["rs"]) % 2:
+            lops.prime_siblings(desc)     # construction history (see lops.prime_siblings)
         A, err = build_checking(desc)
     except Exception as e:
         return violated(sig, "constructing a shape-compatible tree raised %s: %s" % (
